@@ -31,7 +31,7 @@ RULE = ('each run = Manifest chain of depth 1-5 (1-2 Manifests per level, plain/
         'sub-paths), verify_path, assert_path_verifies, find_path_entry, find_dist_entry on fresh '
         'loaders; non-trivial = the chain is actually broken somewhere; distinct = distinct seam '
         'event-log digest')
-PLAN = {'quick': {'n': 2400, 'budget_s': 55, 'block': 40},
+PLAN = {'quick': {'n': 8000, 'budget_s': 90, 'block': 40},
         'thorough': {'n': 80000, 'budget_s': 900, 'block': 200}}
 ASSUMPTIONS = ['the time-of-check/time-of-use window between hashing and parsing one Manifest is not part of the property']
 
